@@ -13,12 +13,14 @@ import ast
 import concurrent.futures as cf
 import contextlib
 import io
+import math
 import multiprocessing
 import signal
 import sys
 import threading
 import time
 from collections import Counter
+from collections.abc import Mapping
 from concurrent.futures import Executor, Future, ProcessPoolExecutor
 from dataclasses import dataclass
 from pathlib import Path
@@ -410,10 +412,12 @@ def _complete(fut):
 def det_as_completed(fs, timeout=None):
     """as_completed driven by the schedule: snapshot at the call, each future of the snapshot once."""
     rig = RIG
-    if isinstance(fs, dict):
+    if not isinstance(fs, dict) and isinstance(getattr(fs, 'mapping', None), Mapping):
+        fs = fs.mapping      # as_completed(futures.keys()): the live dict behind the view
+    if isinstance(fs, (dict, Mapping)):
         rig.futs = fs
     snapshot = list(fs)
-    rig.events.append(('snap', tuple(_pid_of_task(fs[f]) if isinstance(fs, dict) else -1 for f in snapshot)))
+    rig.events.append(('snap', tuple(_pid_of_task(fs[f]) if isinstance(fs, (dict, Mapping)) else -1 for f in snapshot)))
     remaining = list(snapshot)
     real = REAL_AS_COMPLETED(snapshot) if rig.real_iter else None
     while remaining:
@@ -572,7 +576,12 @@ def run_x1(chk: Check, mr: ModelRun):
             j = len(full) - 1
             while j >= 0 and full[j] + 1 >= rig.counts[j]:
                 j -= 1
-            if j < 0 or ending[0] == 'no-termination' or nsched > 5000:
+            if j < 0 or ending[0] == 'no-termination':
+                break
+            if nsched > math.factorial(max(len(pat), 1)):     # a correct loop has at most n! schedules
+                chk.violation('x1:schedule-space', 'more schedules than n! for n tasks: futures are offered more than once',
+                              {'correspondence': 'X1 deterministic executor', 'pattern': pat, 'threads': threads,
+                               'max_workers': mw, 'schedules_seen': nsched})
                 break
             sched = full[:j] + [full[j] + 1]
         chk.count(f'x1.schedules.n{len(pat)}', nsched)
@@ -756,8 +765,12 @@ def run_x2(chk: Check, mr: ModelRun):
         t0 = time.time()
         with (RealThreads() if threads else NoCtx()):
             try:
-                for r in parproc(c18_func, payloads, 'A', parallel=True, reraise=False, max_workers=mw, k=1):
+                gen = parproc(c18_func, payloads, 'A', parallel=True, reraise=False, max_workers=mw, k=1)
+                for r in gen:
                     out.append(canon_result(r))
+                    if len(out) > 3 * len(payloads) + 5:
+                        gen.close()
+                        raise RigAbort('more results than payloads: the loop does not terminate')
             except Hang:
                 raise
             except BaseException as e:   # noqa: BLE001
@@ -777,7 +790,7 @@ def run_x2(chk: Check, mr: ModelRun):
         if m_end == ('done',):
             if ending != ('done',) or Counter(out) != Counter(m_out):
                 bad += 1
-                if kind == 'unpicklable-exception' and ending[0] == 'raised':
+                if kind == 'unpicklable-exception' and not threads and ending[:2] == ('raised', 'BrokenProcessPool'):
                     sig = f'x2:{mode}-pool:captured-exception-does-not-unpickle:{ending[1]}'
                 else:
                     why = 'raised:' + ending[1] if ending[0] == 'raised' else \
